@@ -182,6 +182,11 @@ func drvMisc(c *ctx) error {
 			t2 := t.Add(time.Duration(1 + c.rnd.Int63n(int64(3*time.Second))))
 			c.emit(M{"ev": "gpspair", "t1": utcVal(t), "t2": utcVal(t2), "d1": durDSN(gps.Time(t).TimeSinceGPSEpoch()), "d2": durDSN(gps.Time(t2).TimeSinceGPSEpoch())})
 		}
+	case "gpsfirst": // a fresh process whose FIRST call into the package is the reverse conversion (nothing was converted forward yet)
+		for i := 0; i < c.n; i++ {
+			d := time.Duration(c.rnd.Int63n(int64(50*365*24*time.Hour)/int64(time.Second)))*time.Second + time.Duration(c.pick(0, 0, 1, 500000000, 999999999))
+			c.emit(gpsBackEvent(d))
+		}
 	case "airtime": // n = 0: preamble {0,8,64}; n = 1: preamble 0..64
 		pres := []int{0, 8, 64}
 		if c.n >= 1 {
